@@ -12,6 +12,7 @@ mod alloc_seam;
 mod harness;
 mod prng;
 mod props;
+mod refmath;
 
 use harness::*;
 use props::{Prop, Tier};
@@ -445,6 +446,13 @@ fn check<P: Prop>(tier: Tier) -> i32 {
     let seed = verif_seed();
     let id = P::ID;
     println!("VERIF_SEED={} property={} tier={}", seed, id, tier.name());
+    if id == "C03" {
+        let t = std::fs::read_to_string(root().join("refdata/cdf_table.json")).unwrap_or_else(|_| die("refdata/cdf_table.json missing"));
+        match refmath::selfcheck(&t) {
+            Ok((n, w)) => println!("refmath self-check: {} entries agree with scipy (worst abs error {:.2e})", n, w),
+            Err(e) => die(&format!("refmath self-check failed: {}", e)),
+        }
+    }
     let runs = std::env::var("CSIM_RUNS").ok().and_then(|s| s.parse().ok()).unwrap_or_else(|| P::runs(tier));
     let chunk = P::chunk(tier);
     let dir = root().join("sim/target/run").join(format!("{}-{}-{}", id, tier.name(), std::process::id()));
@@ -455,9 +463,15 @@ fn check<P: Prop>(tier: Tier) -> i32 {
     let b = run_batch(id, tier, seed, st_runs, (st_runs / 7).max(1), n_workers(), &dir, "det-b", true);
     let det_mismatch = a.per_run_logs.iter().zip(b.per_run_logs.iter()).filter(|(x, y)| x != y).count()
         + (a.per_run_logs.len() as i64 - b.per_run_logs.len() as i64).unsigned_abs() as usize;
+    let mut nondeterminism: Option<String> = None;
     if det_mismatch != 0 && a.hangs.is_empty() {
+        // Do not stop here: a change that makes runs irreproducible (e.g. a thread pool inside the
+        // library) usually also breaks the property in a reproducible way. Violations are only
+        // reported after their replay reproduced in a fresh process; if none does, this is exit 2.
         let first = a.per_run_logs.iter().zip(b.per_run_logs.iter()).position(|(x, y)| x != y);
-        die(&format!("determinism self-test failed: {} of {} runs differ (first at run {:?})", det_mismatch, st_runs, first));
+        let msg = format!("determinism self-test failed: {} of {} runs differ between two executions (first at run {:?})", det_mismatch, st_runs, first);
+        println!("NONDETERMINISM {}", msg);
+        nondeterminism = Some(msg);
     }
 
     let batch = run_batch(id, tier, seed, runs, chunk, n_workers(), &dir, "main", false);
@@ -623,17 +637,22 @@ fn check<P: Prop>(tier: Tier) -> i32 {
         println!("VIOLATION property={} replay={}", id, path.display());
         println!("  signature: {}", sig);
     }
+    if !new_violations.is_empty() {
+        for h in &harness_errors {
+            println!("HARNESS-NOTE {}", h);
+        }
+        return 1;
+    }
+    if let Some(m) = nondeterminism {
+        harness_errors.push(m);
+    }
     if !harness_errors.is_empty() {
         for h in &harness_errors {
             println!("HARNESS-ERROR {}", h);
         }
         return 2;
     }
-    if new_violations.is_empty() {
-        0
-    } else {
-        1
-    }
+    0
 }
 
 fn selftest_alea() -> i32 {
